@@ -90,16 +90,19 @@ Lower(t) ==
               LET rightBounded == IsTick(t.in[2]) \/ IsBoundedTop(t.in[2])
                   bothTop == ~IsTick(t.in[1]) /\ ~IsTick(t.in[2])
                   core == IF op = "join" THEN "join_multiset" ELSE "cross_join_multiset"
+                  \* cross_join_multiset is a DFIR macro: map -> join_multiset on a unit key -> map
+                  cnames == IF op = "join" THEN <<"join_multiset">> ELSE <<"map", "map", "join_multiset", "map">>
               IN IF op = "join" /\ rightBounded
                  THEN D("join_half", <<"tick", lt2>>, "", 0, <<>>, <<"join_multiset_half">>, k)
                  ELSE IF bothTop
                  THEN D("multiset_delta", <<>>, "", 0, <<>>, <<"multiset_delta">>,
-                        <<D(core, <<lt1, lt2>>, "", 0, <<>>, <<core>>, k)>>)
-                 ELSE D(core, <<lt1, lt2>>, "", 0, <<>>, <<core>>, k)
+                        <<D(core, <<lt1, lt2>>, "", 0, <<>>, cnames, k)>>)
+                 ELSE D(core, <<lt1, lt2>>, "", 0, <<>>, cnames, k)
          [] op = "anti_join" -> D("anti_join", <<"tick", lt2>>, "", 0, <<>>, <<"anti_join">>, k)
          [] op = "filter_not_in" -> D("difference", <<"tick", lt2>>, "", 0, <<>>, <<"difference">>, k)
          [] op = "chain" -> S("chain", <<"chain">>)
-         [] op = "interleave" -> S("union", <<"union">>)
+         \* merge_unordered is emitted as chain(): all of [0], then all of [1], every tick
+         [] op = "interleave" -> S("union", <<"chain">>)
          [] op = "cross_singleton" ->
               D("cross_singleton",
                 <<IF ~IsTick(t.in[2]) /\ IsBoundedTop(t.in[2]) THEN "static" ELSE "tick">>,
@@ -145,6 +148,21 @@ Lookup(tab, k, dflt) ==
     IF \E i \in 1..Len(tab) : tab[i][1] = k
     THEN (CHOOSE e \in ToSet(tab) : e[1] = k)[2] ELSE dflt
 
+\* result constructors (shared values are passed as arguments, see the note in HydroFlow)
+Both(v) == [out |-> v, s |-> v]
+FoldRes(acc, emit) == [out |-> IF emit THEN <<acc>> ELSE <<>>, s |-> acc]
+OptRes(acc, emit) == [out |-> IF emit THEN acc ELSE <<>>, s |-> acc]
+RedAcc(f, all) == IF all = <<>> THEN <<>>
+                  ELSE <<FoldLeft(LAMBDA a0, e : RedF(f, a0, e), Head(all), Tail(all))>>
+NewOf(seen, x) == SelIdx(x, LAMBDA i : /\ \A j \in 1..Len(seen) : seen[j] # x[i]
+                                      /\ \A j \in 1..(i - 1) : x[j] # x[i])
+UniqRes(seen, new) == [out |-> new, s |-> seen \o new]
+ScanRes(r) == [out |-> r.out, s |-> [s |-> r.s, alive |-> r.alive]]
+GenRes(full, before, hist) == [out |-> SubSeq(full, Len(before) + 1, Len(full)), s |-> hist]
+JoinRes(hop, l, r) == [out |-> Apply([op |-> hop, f |-> "", n |-> 0], <<l, r>>), s |-> [l |-> l, r |-> r]]
+SideRes(hop, x, side) == [out |-> Apply([op |-> hop, f |-> "", n |-> 0], <<x, side>>), s |-> side]
+CrossRes(x, held) == [out |-> IF held = <<>> THEN <<>> ELSE Map1(LAMBDA e : <<e, held[1]>>, x), s |-> held]
+
 \* one tick of one DFIR operator: state s, argument batches a, tick number k -> [out, s]
 DOp(d, s, a, B, k, cyc) ==
     LET op == d.op
@@ -160,17 +178,9 @@ DOp(d, s, a, B, k, cyc) ==
          [] op \in {"map", "filter", "flat_map", "sort", "chain", "kmap", "kfilter", "values",
                     "k1_keys", "is_empty", "repeat_with_keys"} -> [out |-> Pure(op), s |-> s]
          [] op = "union" -> [out |-> x \o a[2], s |-> s]
-         [] op = "keys_unique" ->
-              LET seen == IF st(1) THEN s ELSE <<>>
-                  ks == Map1(LAMBDA e : e[1], x)
-                  new == SelIdx(ks, LAMBDA i : /\ \A j \in 1..Len(seen) : seen[j] # ks[i]
-                                              /\ \A j \in 1..(i - 1) : ks[j] # ks[i])
-              IN [out |-> new, s |-> seen \o new]
-         [] op = "unique" ->
-              LET seen == IF st(1) THEN s ELSE <<>>
-                  new == SelIdx(x, LAMBDA i : /\ \A j \in 1..Len(seen) : seen[j] # x[i]
-                                             /\ \A j \in 1..(i - 1) : x[j] # x[i])
-              IN [out |-> new, s |-> seen \o new]
+         [] op = "keys_unique" -> UniqRes(IF st(1) THEN s ELSE <<>>,
+                                          NewOf(IF st(1) THEN s ELSE <<>>, Map1(LAMBDA e : e[1], x)))
+         [] op = "unique" -> UniqRes(IF st(1) THEN s ELSE <<>>, NewOf(IF st(1) THEN s ELSE <<>>, x))
          [] op = "enumerate" ->
               LET c0 == IF st(1) THEN s ELSE 0
               IN [out |-> [i \in 1..Len(x) |-> <<c0 + i - 1, x[i]>>], s |-> c0 + Len(x)]
@@ -179,9 +189,7 @@ DOp(d, s, a, B, k, cyc) ==
                   take == Min2(Len(x), IF d.n > c0 THEN d.n - c0 ELSE 0)
               IN [out |-> SubSeq(x, 1, take), s |-> c0 + take]
          [] op = "scan" ->
-              LET s0 == IF st(1) THEN s ELSE [s |-> ScanInit(d.f), alive |-> TRUE]
-                  r == ScanFrom(d.f, x, s0.s, s0.alive)
-              IN [out |-> r.out, s |-> [s |-> r.s, alive |-> r.alive]]
+              ScanRes(ScanFrom(d.f, x, IF st(1) THEN s.s ELSE ScanInit(d.f), IF st(1) THEN s.alive ELSE TRUE))
          \* state = the items seen in the operator's lifetime; output = what the streaming
          \* per-key operator adds for the new items
          [] op = "kgen" ->
@@ -189,69 +197,45 @@ DOp(d, s, a, B, k, cyc) ==
                   hop == IF d.names = <<"scan", "flat_map", "map">> THEN "kfirst"
                          ELSE IF d.f = "" THEN "kenumerate" ELSE "kscan"
                   ap(h) == Apply([op |-> hop, f |-> d.f, n |-> 0], <<h>>)
-                  full == ap(hist \o x)
-              IN [out |-> SubSeq(full, Len(ap(hist)) + 1, Len(full)), s |-> hist \o x]
+              IN GenRes(ap(hist \o x), ap(hist), hist \o x)
          \* fold emits its accumulator every tick; 'tick restarts from init
          [] op = "fold" ->
-              LET acc == FoldLeft(LAMBDA a0, e : FoldF(d.f, a0, e), IF st(1) THEN s ELSE FoldInit(d.f), x)
-              IN [out |-> <<acc>>, s |-> acc]
+              FoldRes(FoldLeft(LAMBDA a0, e : FoldF(d.f, a0, e), IF st(1) THEN s ELSE FoldInit(d.f), x), TRUE)
          \* fold_no_replay emits on ticks with new input and on the first tick
          [] op = "fold_no_replay" ->
-              LET acc == FoldLeft(LAMBDA a0, e : FoldF(d.f, a0, e), s, x)
-              IN [out |-> IF x # <<>> \/ k = 1 THEN <<acc>> ELSE <<>>, s |-> acc]
-         [] op = "reduce" ->
-              LET s0 == IF st(1) THEN s ELSE <<>>
-                  all == s0 \o x
-                  acc == IF all = <<>> THEN <<>>
-                         ELSE <<FoldLeft(LAMBDA a0, e : RedF(d.f, a0, e), Head(all), Tail(all))>>
-              IN [out |-> acc, s |-> acc]
-         [] op = "reduce_no_replay" ->
-              LET all == s \o x
-                  acc == IF all = <<>> THEN <<>>
-                         ELSE <<FoldLeft(LAMBDA a0, e : RedF(d.f, a0, e), Head(all), Tail(all))>>
-              IN [out |-> IF x # <<>> \/ k = 1 THEN acc ELSE <<>>, s |-> acc]
+              FoldRes(FoldLeft(LAMBDA a0, e : FoldF(d.f, a0, e), s, x), x # <<>> \/ k = 1)
+         [] op = "reduce" -> OptRes(RedAcc(d.f, (IF st(1) THEN s ELSE <<>>) \o x), TRUE)
+         [] op = "reduce_no_replay" -> OptRes(RedAcc(d.f, s \o x), x # <<>> \/ k = 1)
          \* join_multiset / cross_join_multiset: drain-then-enumerate, the whole join of the
          \* accumulated sides every tick
          [] op \in {"join_multiset", "cross_join_multiset"} ->
-              LET l == (IF st(1) THEN s.l ELSE <<>>) \o x
-                  r == (IF st(2) THEN s.r ELSE <<>>) \o a[2]
-                  hop == IF op = "join_multiset" THEN "join" ELSE "cross_product"
-              IN [out |-> Apply([op |-> hop, f |-> "", n |-> 0], <<l, r>>), s |-> [l |-> l, r |-> r]]
+              JoinRes(IF op = "join_multiset" THEN "join" ELSE "cross_product",
+                      (IF st(1) THEN s.l ELSE <<>>) \o x, (IF st(2) THEN s.r ELSE <<>>) \o a[2])
          \* compares with the previous tick only
          [] op = "multiset_delta" -> [out |-> MsDelta(x, s), s |-> x]
          \* build side (second argument) accumulated first, probe side streams through
-         [] op = "join_half" ->
-              LET build == (IF st(2) THEN s ELSE <<>>) \o a[2]
-              IN [out |-> Apply([op |-> "join", f |-> "", n |-> 0], <<x, build>>), s |-> build]
-         [] op = "anti_join" ->
-              LET neg == (IF st(2) THEN s ELSE <<>>) \o a[2]
-              IN [out |-> Apply([op |-> "anti_join", f |-> "", n |-> 0], <<x, neg>>), s |-> neg]
-         [] op = "difference" ->
-              LET neg == (IF st(2) THEN s ELSE <<>>) \o a[2]
-              IN [out |-> Apply([op |-> "filter_not_in", f |-> "", n |-> 0], <<x, neg>>), s |-> neg]
+         [] op = "join_half" -> SideRes("join", x, (IF st(2) THEN s ELSE <<>>) \o a[2])
+         [] op = "anti_join" -> SideRes("anti_join", x, (IF st(2) THEN s ELSE <<>>) \o a[2])
+         [] op = "difference" -> SideRes("filter_not_in", x, (IF st(2) THEN s ELSE <<>>) \o a[2])
          \* keeps the first `single` item; 'static keeps it across ticks
          [] op = "cross_singleton" ->
-              LET held == IF st(1) /\ s # <<>> THEN s ELSE IF a[2] # <<>> THEN <<a[2][1]>> ELSE <<>>
-              IN [out |-> IF held = <<>> THEN <<>> ELSE Map1(LAMBDA e : <<e, held[1]>>, x), s |-> held]
+              CrossRes(x, IF st(1) /\ s # <<>> THEN s ELSE IF a[2] # <<>> THEN <<a[2][1]>> ELSE <<>>)
          [] op = "defer_tick_lazy" -> [out |-> s, s |-> x]
          \* 'static replays every group every tick, 'tick only this tick's groups
          [] op = "fold_keyed" ->
-              LET t0 == IF st(1) THEN s ELSE <<>>
-                  tab == FoldLeft(LAMBDA tb, e : Upsert(tb, e[1], FoldF(d.f, Lookup(tb, e[1], FoldInit(d.f)), e[2])), t0, x)
-              IN [out |-> tab, s |-> tab]
+              Both(FoldLeft(LAMBDA tb, e : Upsert(tb, e[1], FoldF(d.f, Lookup(tb, e[1], FoldInit(d.f)), e[2])),
+                            IF st(1) THEN s ELSE <<>>, x))
          [] op = "reduce_keyed" ->
-              LET t0 == IF st(1) THEN s ELSE <<>>
-                  tab == FoldLeft(LAMBDA tb, e :
+              Both(FoldLeft(LAMBDA tb, e :
                              IF \E i \in 1..Len(tb) : tb[i][1] = e[1]
                              THEN Upsert(tb, e[1], RedF(d.f, Lookup(tb, e[1], 0), e[2]))
-                             ELSE Append(tb, e), t0, x)
-              IN [out |-> tab, s |-> tab]
+                             ELSE Append(tb, e), IF st(1) THEN s ELSE <<>>, x))
 
 RECURSIVE DStep(_, _, _, _, _)
+DStep3(d, kr, r) == [out |-> r.out, st |-> [s |-> r.s, kids |-> [i \in 1..Len(d.in) |-> kr[i].st]]]
+DStep2(d, st, B, k, cyc, kr) == DStep3(d, kr, DOp(d, st.s, [i \in 1..Len(d.in) |-> kr[i].out], B, k, cyc))
 DStep(d, st, B, k, cyc) ==
-    LET kr == [i \in 1..Len(d.in) |-> DStep(d.in[i], st.kids[i], B, k, cyc)]
-        r == DOp(d, st.s, [i \in 1..Len(d.in) |-> kr[i].out], B, k, cyc)
-    IN [out |-> r.out, st |-> [s |-> r.s, kids |-> [i \in 1..Len(d.in) |-> kr[i].st]]]
+    DStep2(d, st, B, k, cyc, [i \in 1..Len(d.in) |-> DStep(d.in[i], st.kids[i], B, k, cyc)])
 
 -----------------------------------------------------------------------------
 \* the observed term: a top-level singleton is observed through snapshot -> all_ticks
@@ -269,18 +253,19 @@ RunInit(L) == [main |-> DInit(L.main),
                cyc |-> [c \in DOMAIN L.cdef |-> <<>>]]
 
 \* one tick: [out, st]
+RunTick2(L, m, cd) ==
+    [out |-> m.out,
+     st |-> [main |-> m.st, cdef |-> [c \in DOMAIN L.cdef |-> cd[c].st],
+             cyc |-> [c \in DOMAIN L.cdef |-> cd[c].out]]]
 RunTick(L, rs, B, k) ==
-    LET m == DStep(L.main, rs.main, B, k, rs.cyc)
-        cd == [c \in DOMAIN L.cdef |-> DStep(L.cdef[c], rs.cdef[c], B, k, rs.cyc)]
-    IN [out |-> m.out,
-        st |-> [main |-> m.st, cdef |-> [c \in DOMAIN L.cdef |-> cd[c].st],
-                cyc |-> [c \in DOMAIN L.cdef |-> cd[c].out]]]
+    RunTick2(L, DStep(L.main, rs.main, B, k, rs.cyc),
+             [c \in DOMAIN L.cdef |-> DStep(L.cdef[c], rs.cdef[c], B, k, rs.cyc)])
 
 RECURSIVE RunFrom(_, _, _, _)
-RunFrom(L, rs, B, k) ==
-    IF k > Len(B) THEN <<>>
-    ELSE LET r == RunTick(L, rs, B, k) IN <<r.out>> \o RunFrom(L, r.st, B, k + 1)
-Run(P, B) == LET L == LowProg(P) IN RunFrom(L, RunInit(L), B, 1)
+RunCons(L, B, k, r) == <<r.out>> \o RunFrom(L, r.st, B, k + 1)
+RunFrom(L, rs, B, k) == IF k > Len(B) THEN <<>> ELSE RunCons(L, B, k, RunTick(L, rs, B, k))
+RunLow(L, B) == RunFrom(L, RunInit(L), B, 1)
+Run(P, B) == RunLow(LowProg(P), B)
 
 \* DFIR operators of the lowered program (for comparison with the generated code)
 RECURSIVE OpNames(_)
